@@ -1,7 +1,6 @@
-//! C02 — collections built by the real `emit::props!` proc-macro (plain, renamed with
-//! `#[emit::key]` so that final names keep / invert / interleave identifier order, optional,
-//! cfg-gated keys) and the alloc collections (Box, Arc, Dedup, BTreeMap): lookup agrees with
-//! enumeration.
+//! C02 — alloc collections (Box, Arc, Dedup, BTreeMap): lookup agrees with enumeration.
+//! (std build: every `Value` temporary drags Arc drop glue through CBMC, so these are thorough-tier
+//! harnesses with small shapes; the macro-built collections are decided in the no-feature group.)
 use core::ops::ControlFlow;
 use emit::Props;
 use std::collections::BTreeMap;
@@ -44,38 +43,10 @@ pub fn coherent<P: Props + ?Sized>(p: &P, max_len: usize) {
     kani::cover!(first.is_none(), "absent key");
 }
 
-macro_rules! site {
-    ($name:ident, $len:expr, |$x:ident, $y:ident, $o:ident| { $($body:tt)* }) => {
-        #[kani::proof]
-        #[kani::unwind(8)]
-        pub fn $name() {
-            let $x: i32 = kani::any();
-            let $y: i32 = kani::any();
-            let $o: Option<i32> = kani::any();
-            let p = emit::props! { $($body)* };
-            coherent(&p, $len);
-            core::mem::forget(p);
-        }
-    };
-}
-
-// final names keep identifier order
-site!(c02_q_macro_plain3, 3, |x, y, o| { a: x, b: y, c: 3 });
-// renamed so that final names INVERT identifier order
-site!(c02_q_macro_renamed_inverted, 2, |x, y, o| { #[emit::key("z")] a: x, b: y });
-// renamed so that final names interleave
-site!(c02_q_macro_renamed_interleaved, 3, |x, y, o| { #[emit::key("m")] a: x, #[emit::key("a")] b: y, c: 3 });
-// optional (None contributes no pair) next to a renamed key
-site!(c02_q_macro_optional_renamed, 3, |x, y, o| { #[emit::optional] a: o.as_ref(), #[emit::key("a.x")] b: y, #[emit::key("b")] c: 3 });
-// cfg-gated keys (present / absent)
-site!(c02_q_macro_cfg, 3, |x, y, o| { #[cfg(all())] z: x, #[cfg(any())] a: y, #[emit::key("c")] b: 3 });
-site!(c02_t_macro_renamed3, 3, |x, y, o| { #[emit::key("z")] a: x, #[emit::key("m")] b: y, #[emit::key("a")] c: 3 });
-site!(c02_t_macro_optional_all, 3, |x, y, o| { #[emit::optional] z: o.as_ref(), #[emit::optional] #[emit::key("a")] m: o.as_ref(), b: y });
-
 /// alloc wrappers and de-duplication
 #[kani::proof]
 #[kani::unwind(8)]
-pub fn c02_q_box_arc_dedup() {
+pub fn c02_t_box_arc_dedup() {
     let k0: usize = kani::any();
     let k1: usize = kani::any();
     let k2: usize = kani::any();
@@ -106,7 +77,7 @@ pub fn c02_q_box_arc_dedup() {
 
 #[kani::proof]
 #[kani::unwind(8)]
-pub fn c02_q_btreemap() {
+pub fn c02_t_btreemap() {
     let k0: usize = kani::any();
     let k1: usize = kani::any();
     kani::assume(k0 < 5 && k1 < 5);
@@ -119,11 +90,3 @@ pub fn c02_q_btreemap() {
     kani::cover!(k0 == k1, "overwritten key");
 }
 
-#[kani::proof]
-#[kani::unwind(8)]
-pub fn c02_w_twin_macro_lookup_by_ident() {
-    // false claim: a renamed key can be looked up by its identifier
-    let p = emit::props! { #[emit::key("z")] a: 1, b: 2 };
-    assert!(p.get("a").is_some());
-    core::mem::forget(p);
-}
